@@ -20,6 +20,9 @@ ASSUMPTIONS = [
 ]
 
 STYLES = (("causal", False), ("centered", False), ("centered", True))
+# also: kaldi_shift given together with the causal style (documented to affect centered frames only) and
+# frame_style left at None (resolved from bank.is_zero_phase, which also selects the default window)
+EXTRA_STYLES = (("causal", True), (None, False), (None, True))
 FLAGS = list(itertools.product((True, False), (False, True), (False, True)))  # log, power, energy
 
 
@@ -76,21 +79,23 @@ def _eval(pt, seed):
                                skipped=True)
         D = comp._dft_size if hasattr(comp, "_dft_size") else None
         Dexp = int(2 ** np.ceil(np.log2(L))) if pad else L
+        # documented resolution of frame_style=None: centered iff the bank is zero phase
+        rstyle = style if style is not None else ("centered" if bank.is_zero_phase else "causal")
         win = cfg.make_window(window)
         if win is None:
             from pydrobert.speech import filters
-            win = filters.GammaWindow() if style == "causal" else filters.HannWindow()
+            win = filters.GammaWindow() if rstyle == "causal" else filters.HannWindow()
         w = win.get_impulse_response(L)
         tags = dict(bank=type(bank).__name__, real=bool(bank.is_real), style=style, kaldi=kaldi,
-                    Dmod4=Dexp % 4, pad=pad)
-        for N in sorted(set([0, L // 2, L // 2 + 1, L, 2 * L + 1, 3 * L + S])):
+                    Dmod4=Dexp % 4, pad=pad, S_gt_L=bool(S > L))
+        for N in sorted(set([0, L // 2, L // 2 + 1, L, 2 * L + 1, 3 * L + S] + ([S - S // 2 - 1, S - S // 2, S, 2 * S] if S > L else []))):
             for variant in VARIANTS if N in (L, 3 * L + S) else ("generic",):
                 x = _signal(seed, N, variant)
                 evals += 1
                 r = computers.call(comp.compute_full, sig.rov(x))
                 case = dict(config=c, N=N, signal=variant)
                 try:
-                    want = ref.compute_full(x, bank, L, S, Dexp, w, style, kaldi, use_log,
+                    want = ref.compute_full(x, bank, L, S, Dexp, w, rstyle, kaldi, use_log,
                                             use_power, energy, config.LOG_FLOOR_VALUE)
                 except ref.OutOfRecipe as e:
                     obs.add("out_of_recipe")
@@ -141,17 +146,18 @@ def _replay(case, seed):
     bank = cfg.make_bank(c["bank"])
     L, S = c["L"], c["S"]
     D = int(2 ** np.ceil(np.log2(L))) if c["pad"] else L
+    rstyle = c["style"] if c["style"] is not None else ("centered" if bank.is_zero_phase else "causal")
     win = cfg.make_window(c["window"])
     if win is None:
         from pydrobert.speech import filters
-        win = filters.GammaWindow() if c["style"] == "causal" else filters.HannWindow()
+        win = filters.GammaWindow() if rstyle == "causal" else filters.HannWindow()
     N = case["N"]
     x = _signal(seed, N, case["signal"])
-    want = ref.compute_full(x, bank, L, S, D, win.get_impulse_response(L), c["style"], c["kaldi"],
+    want = ref.compute_full(x, bank, L, S, D, win.get_impulse_response(L), rstyle, c["kaldi"],
                             c["log"], c["power"], c["energy"], config.LOG_FLOOR_VALUE)
     r = computers.call(comp.compute_full, sig.rov(x))
     tags = dict(bank=type(bank).__name__, real=bool(bank.is_real), style=c["style"],
-                kaldi=c["kaldi"], Dmod4=D % 4, pad=c["pad"])
+                kaldi=c["kaldi"], Dmod4=D % 4, pad=c["pad"], S_gt_L=bool(S > L))
     if r[0] != "ok":
         return core.result([core.violation(dict(tags, what="exception", exc=r[1]), str(r), case)])
     got = r[1]
@@ -268,6 +274,15 @@ def subchecks(tier, seed):
                     for st in STYLES:
                         for w in ("hamming", None):
                             pts.append((b, L, S, pad, st, w))
+            # frame shifts LARGER than the frame length (samples are skipped), and the extra styles
+            if L in (2, 3, 4, 5, 8):
+                for S in (L + 1, 2 * L + 1, 3 * L):
+                    for st in STYLES:
+                        pts.append((b, L, S, False, st, "hamming"))
+            if L in (3, 4, 6, 7):
+                for st in EXTRA_STYLES:
+                    for w in ("hamming", None):
+                        pts.append((b, L, 2, True, st, w))
     if tier == "thorough":
         for scale in ("mel", "bark", "linear", {"name": "octave", "low_hz": 20.0}):
             for name in ("gabor", "tri", "gammatone"):
